@@ -204,9 +204,10 @@ func NewCase(g *Gen, id int, forceValidate *bool) *Case {
 	// pooled objects: freshly allocated (path builders at their initial capacity, ...), whatever the
 	// previous cases left behind, or *dirty* objects with every field set to junk (what sync.Pool may
 	// legitimately hand out after arbitrary earlier executions)
-	c.PoolMode = Pick(g.R, []string{"fresh", "fresh", "recycled", "recycled", "dirty"})
+	c.PoolMode = Pick(g.R, []string{"fresh", "recycled", "dirty", "dirty"})
+	poolMode := c.PoolMode
 	run := func() (Observed, map[*Node][]string, bool) {
-		switch c.PoolMode {
+		switch poolMode {
 		case "fresh":
 			internals.ClearPools()
 		case "dirty":
@@ -255,7 +256,16 @@ func NewCase(g *Gen, id int, forceValidate *bool) *Case {
 			break
 		}
 	}
-	for len(c.Repeats) < 3 {
+	// repetitions: the same schema built with reshuffled key insertion orders (the runtime's iteration
+	// order is a function of insertion order and a random start), under rotating pool states
+	nrep := 3
+	if g.P.Repeats > nrep {
+		nrep = g.P.Repeats
+	}
+	modes := []string{"fresh", "dirty", "recycled"}
+	for k := 0; len(c.Repeats) < nrep; k++ {
+		schema = Build(rec, shuffled(g.R, n), validate)
+		poolMode = modes[k%len(modes)]
 		o, _, _ := run()
 		c.Repeats = append(c.Repeats, o.canon(n))
 	}
@@ -416,4 +426,24 @@ func (s *Stats) Add(c *Case) {
 	if !c.Obs.Nil || len(c.Obs.Calls) > 0 {
 		s.Outcomes[c.Shape+"|"+strings.Join(codes, ",")+fmt.Sprint(c.Validate)] = true
 	}
+}
+
+// shuffled copies the schema tree with the fields of every struct in a random order (the order in
+// which the keys are inserted into the z.Schema map).
+func shuffled(r *Rng, n *Node) *Node {
+	c := *n
+	if n.Elem != nil {
+		c.Elem = shuffled(r, n.Elem)
+	}
+	if len(n.Fields) > 0 {
+		c.Fields = make([]Field, len(n.Fields))
+		for i, f := range n.Fields {
+			c.Fields[i] = Field{Key: f.Key, Tags: f.Tags, Node: shuffled(r, f.Node)}
+		}
+		for i := len(c.Fields) - 1; i > 0; i-- {
+			j := r.Intn(i + 1)
+			c.Fields[i], c.Fields[j] = c.Fields[j], c.Fields[i]
+		}
+	}
+	return &c
 }
